@@ -13,8 +13,8 @@ use crate::tabledrv::{TableDrv, TW_GENERAL};
 use crate::util::{Json, Rng};
 use crate::{for_elem, for_pair};
 
-const PAIRS: [&str; 5] = ["T24xT24", "P8xP8", "P8xT24", "B1xB1", "L200xB1"];
-const ELEMS: [&str; 4] = ["T24", "P8", "L200", "B3"];
+const PAIRS: [&str; 6] = ["T24xT24", "P8xP8", "P8xT24", "B1xB1", "L200xB1", "L600xB1"];
+const ELEMS: [&str; 5] = ["T24", "P8", "L200", "B3", "L600"];
 const SET_ELEMS: [&str; 3] = ["T24", "P8", "B3"];
 
 pub fn run(c: &mut Ctx) {
